@@ -4,7 +4,7 @@ import time
 
 from common import Rule, finish
 from hirtab import ANY, C, L, T, adt_variants, callees, candidates, lit_value, top_match
-from hirutil import find, strip, walk
+from hirutil import find, lit_str, strip, walk
 
 BO = "jaq_core::load::parse::BinaryOp"
 MATH = "jaq_core::ops::Math"
@@ -242,7 +242,52 @@ def run(facts, tier):
                 t5.violate(f"cmp/{w[1]}{w[0]}{w[2]}", f"prec_climb::climb1 no longer contains the comparison `{w[1]} {w[0]} {w[2]}` (found {got})", where=fn["sp"])
         if len(got) != 3:
             t5.violate("cmp/extra", f"prec_climb::climb1 compares precedences differently than the algorithm: {got}", where=fn["sp"])
+        # the recursion for the right operand starts at the precedence of the *next* operator (the one just peeked),
+        # so that it stops before an operator of the current level
+        recs = [n for n in find(fn["body"], lambda n: n.get("k") == "Call" and (strip(n["f"]).get("path") or {}).get("def") == fn["def"])]
+        for n in recs:
+            o = origin(n["args"][2]) if len(n["args"]) > 2 else "?"
+            t5.examined(("recursion", n["sp"]), True, {"right_operand_recursion_starts_at": o})
+            if o != "prec(peek)":
+                t5.violate("recursion/min", f"the recursion that builds the right operand starts at `{o}` instead of the precedence of the next operator: after a tighter operator it also swallows following operators of the current level (`a - b * c - d` groups as `a - (b * c - d)`)", where=n["sp"])
+        if not recs:
+            t5.violate("recursion/anchor", "prec_climb::climb1 no longer recurses for the right operand", where=fn["sp"])
     rules.append(t5.finish())
+
+    # ---------------- T15.7 arities of reduce / foreach
+    t7 = Rule("T15.7", "`reduce` takes exactly two arguments after the pattern and `foreach` two or three: the compiler's table on (keyword, third argument, fourth argument) "
+              "rejects every other arity (an extra argument silently dropped would hide undefined names and typos)", floor=6)
+    tabs = []
+    for f_ in facts.hir("jaq_core"):
+        if not f_["def"].startswith("jaq_core::compile::") or f_.get("test"):
+            continue
+        for m_ in find(f_["body"], lambda n: n.get("k") == "Match" and n.get("src") == "Normal"):
+            lits = {lit_str(p_) for a_ in m_["arms"] for p_ in find(a_["pat"], lambda n: n.get("k") == "Lit")}
+            if {"reduce", "foreach"} <= lits:
+                tabs.append((f_, m_))
+    if len(tabs) != 1:
+        t7.missing_anchor(f"the match on (\"reduce\"|\"foreach\", argument, argument) in the compiler ({len(tabs)} found)")
+    else:
+        f_, m_ = tabs[0]
+        SOME, NONE = C("core::option::Option::Some", ANY), C("core::option::Option::None")
+        for kw in ("reduce", "foreach"):
+            for a3, n3 in ((NONE, 2), (SOME, 3)):
+                for a4, n4 in ((NONE, 0), (SOME, 1)):
+                    if n3 == 2 and n4 == 1:
+                        continue
+                    nargs = n3 + n4
+                    cs_ = candidates(m_["arms"], T(L(kw), a3, a4))
+                    sure = [c_ for c_ in cs_ if c_[1] == "sure"]
+                    if not sure or len(cs_) != 1:
+                        t7.violate(f"arity/{kw}/{nargs}", f"`{kw}` with {nargs} arguments is not decided by exactly one arm", where=m_["sp"])
+                        continue
+                    body_ = m_["arms"][sure[0][0]]["body"]
+                    rejected = any(c_.endswith("::fail") for c_ in callees(body_))
+                    want_reject = not ((kw == "reduce" and nargs == 2) or (kw == "foreach" and nargs in (2, 3)))
+                    t7.examined((kw, nargs), True, {"keyword": kw, "arguments": nargs, "rejected": rejected})
+                    if rejected != want_reject:
+                        t7.violate(f"arity/{kw}/{nargs}", f"`{kw}` with {nargs} arguments is {'rejected' if rejected else 'accepted'}; the grammar says it must be {'rejected' if want_reject else 'accepted'}", where=m_["arms"][sure[0][0]]["sp"])
+    rules.append(t7.finish())
 
     # ---------------- T15.6 `@fmt "..."` in key position keeps its format
     t6 = Rule("T15.6", "a format-prefixed string used as a key (`{@base64 \"k\\(f)\": v}`, `.@uri \"..\"`) is parsed into a string term carrying that format, like in term position", floor=2)
